@@ -204,6 +204,7 @@ func init() {
 			ruleWriter2Split(c, r, "")
 			ruleMatchLen(c, r, "")
 			ruleWriteMatchCE(c, r, "")
+			ruleCopyNCE(c, r, "") // raw chunks carry the bytes that were compressed
 			ruleDictCapRange(c, r, "")
 			{
 				// the LZMA2 chunk header both ways at its boundary values (a chunk of more than 1 MiB)
